@@ -201,11 +201,72 @@ pub fn one_bit_per_pixel_vp8l(rng: &mut Rng, w: u32, h: u32) -> Vec<u8> {
     b
 }
 
+/// a valid 1x1 stream whose entropy image (one pixel) names prefix-code group `groups - 1`: the validator has to read
+/// `groups` groups of five one-symbol codes (20 bits per group) before the single pixel
+pub fn many_groups_vp8l(groups: u32) -> Vec<u8> {
+    assert!((1..=65536).contains(&groups));
+    let idx = groups - 1;
+    let mut bw = BitWriter::new();
+    bw.bits(0x2f, 8);
+    bw.bits(0, 14);
+    bw.bits(0, 14);
+    bw.bit(false);
+    bw.bits(0, 3);
+    bw.bit(false); // no transform
+    bw.bit(false); // no colour cache
+    bw.bit(true); // meta prefix codes
+    bw.bits(0, 3); // block size 4: a 1x1 entropy image
+    bw.bit(false); // entropy image: no colour cache
+    for sym in [idx & 0xff, idx >> 8] {
+        // green, red: one 8-bit symbol
+        bw.bit(true);
+        bw.bit(false);
+        bw.bit(true);
+        bw.bits(sym, 8);
+    }
+    for _ in 0..3 {
+        bw.bit(true);
+        bw.bit(false);
+        bw.bit(false);
+        bw.bit(false);
+    }
+    for _ in 0..(5 * groups) {
+        bw.bit(true);
+        bw.bit(false);
+        bw.bit(false);
+        bw.bit(false);
+    }
+    let mut b = bw.bytes;
+    b.extend_from_slice(&[0; 4]);
+    b
+}
+
 /// peak heap of webpsan over streams of the same shape and growing size (one line for the whole family)
 pub fn emit_webp_scale<W: Write>(out: &mut W, id: &str, rng: &mut Rng, dims: &[(u32, u32)]) {
+    let files: Vec<(String, Vec<u8>)> = dims.iter().map(|&(w, h)| (format!("{w}x{h}"), riff(&[chunk(b"VP8L", &one_bit_per_pixel_vp8l(rng, w, h))]))).collect();
+    emit_webp_scale_files(out, id, &files)
+}
+
+pub fn groups_files(alph: bool, groups: &[u32]) -> Vec<(String, Vec<u8>)> {
+    groups
+        .iter()
+        .map(|&g| {
+            let p = many_groups_vp8l(g);
+            let f = if alph {
+                let mut a = vec![1u8];
+                a.extend_from_slice(&p[5..]);
+                riff(&[chunk(b"VP8X", &vp8x_payload(0x10, 1, 1)), chunk(b"ALPH", &a), chunk(b"VP8 ", VP8_DATA)])
+            } else {
+                riff(&[chunk(b"VP8L", &p)])
+            };
+            (format!("{g}groups"), f)
+        })
+        .collect()
+}
+
+pub fn emit_webp_scale_files<W: Write>(out: &mut W, id: &str, files: &[(String, Vec<u8>)]) {
     let mut rs = vec![];
-    for &(w, h) in dims {
-        let f = riff(&[chunk(b"VP8L", &one_bit_per_pixel_vp8l(rng, w, h))]);
+    for (label, f) in files {
         let r = crate::quiet(AssertUnwindSafe(|| {
             let cfg = webpsan::Config::default();
             let mut c = std::io::Cursor::new(&f);
@@ -213,7 +274,7 @@ pub fn emit_webp_scale<W: Write>(out: &mut W, id: &str, rng: &mut Rng, dims: &[(
             (o, peak)
         }))
         .unwrap_or(("panic".into(), 0));
-        rs.push(format!("{w}x{h}:{}:{}:{}", f.len(), r.0, r.1));
+        rs.push(format!("{label}:{}:{}:{}", f.len(), r.0, r.1));
     }
     writeln!(out, "C10 id={id} san=webpscale len=0 ext=- runs={}", rs.join(";")).unwrap();
 }
@@ -222,7 +283,10 @@ pub fn replay<W: Write>(line: &str, out: &mut W) {
     let get = |k: &str| line.split(' ').find_map(|t| t.strip_prefix(&format!("{k}=")).map(|s| s.to_string()));
     let s = Sparse::parse_line(&get("len").unwrap(), &get("ext").unwrap());
     let id = get("id").unwrap_or("replay".into());
-    if get("san").as_deref() == Some("webpscale") {
+    if get("san").as_deref() == Some("webpscale") && get("runs").unwrap_or_default().contains("groups:") {
+        let groups: Vec<u32> = get("runs").unwrap_or_default().split(';').filter_map(|t| t.split(':').next()?.strip_suffix("groups")?.parse().ok()).collect();
+        emit_webp_scale_files(out, &id, &groups_files(id.contains("alph"), &groups));
+    } else if get("san").as_deref() == Some("webpscale") {
         let dims: Vec<(u32, u32)> = get("runs").unwrap_or_default().split(';').filter_map(|t| {
             let d = t.split(':').next()?;
             let mut it = d.split('x').map(|x| x.parse().unwrap_or(1));
@@ -472,6 +536,20 @@ pub fn run<W: Write>(opts: &Opts, out: &mut W) {
     if opts.mine(3) {
         let dims: &[(u32, u32)] = if opts.tier_thorough { &[(64, 64), (256, 256), (1024, 1024), (4096, 4096), (8192, 8192), (16384, 16384)] } else { &[(64, 64), (256, 256), (1024, 1024), (4096, 4096), (8192, 4096)] };
         emit_webp_scale(out, "webp-scale", &mut rng.fork(77), dims);
+    }
+    // the number of prefix-code groups is chosen by the input (2.5 bytes of input per group): the peak must not follow it
+    let groups: &[u32] = if opts.tier_thorough { &[1, 16, 256, 4096, 65536] } else { &[1, 16, 256, 4096] };
+    if opts.mine(4) {
+        emit_webp_scale_files(out, "webp-groups-scale", &groups_files(false, groups));
+    }
+    if opts.mine(5) {
+        emit_webp_scale_files(out, "webp-groups-alph-scale", &groups_files(true, groups));
+    }
+    for (k, g) in [2u32, 64, 1000].iter().enumerate() {
+        if opts.mine(6 + k as u64) {
+            let fs = groups_files(k == 1, &[*g]);
+            emit_webp(out, &format!("groups-{g}"), &Sparse::from_bytes(&fs[0].1), false, (1, 1));
+        }
     }
     // chunk sizes: huge declared (virtual) chunks that are skipped, never read
     for (k, sz) in [(0u64, 1u64 << 20), (1, 1 << 28), (2, (1u64 << 32) - 30)].iter() {
